@@ -46,6 +46,17 @@ func genCase(t *rapid.T) Case {
 	var c Case
 	n := rapid.IntRange(5, 40).Draw(t, "n")
 	for i := 0; i < n; i++ {
+		if rapid.IntRange(0, 9).Draw(t, "probe") == 0 {
+			// the backend goes away while the client has not polled yet, and the client keeps talking
+			slot := rapid.IntRange(0, 2).Draw(t, "pslot")
+			c.Steps = append(c.Steps, Step{Kind: "open", Slot: slot},
+				Step{Kind: "bsend", Slot: slot, N: rapid.SampledFrom([]int{0, 1, 12}).Draw(t, "pn")},
+				Step{Kind: "bclose", Slot: slot},
+				Step{Kind: "data", Slot: slot, Arg: "valid", N: rapid.SampledFrom([]int{5, 11, 15}).Draw(t, "pd")},
+				Step{Kind: "data", Slot: slot, Arg: "valid", N: 8},
+				Step{Kind: rapid.SampledFrom([]string{"close", "poll", "data"}).Draw(t, "pk"), Slot: slot, Arg: "valid", N: 3})
+			continue
+		}
 		st := Step{Slot: rapid.SampledFrom([]int{0, 0, 1, 1, 2, -1}).Draw(t, "slot")}
 		st.Kind = rapid.SampledFrom([]string{"open", "open", "data", "data", "poll", "close", "bsend", "bsend", "bclose", "group", "group", "group"}).Draw(t, "kind")
 		switch st.Kind {
@@ -283,7 +294,7 @@ func runCase(c *Case) vh.Outcome {
 				}
 			}
 		case "bsend":
-			if s == nil || state != "open" {
+			if s == nil || state != "open" || st.N == 0 {
 				continue
 			}
 			for k := 0; k < st.N; k++ {
